@@ -33,6 +33,8 @@ TWINS["fixpoint"] = [("Computation", "c07.closure")]
 
 TWINS["callgraph"] = [("find_call_sequences", "c24.calls")]
 
+TWINS["mem_region"] = [("MemRegion", "c05.ops"), ("merge_or_merge_with_top", "c05.ops"), ("compute_range_end", "c05.ops"), ("Inner", "c05.ops")]
+
 PROPS = {
     "C01": {
         "units": ["bitvector"],
@@ -126,6 +128,48 @@ PROPS = {
                      'R9: `callgraph.node_indices().find(|node| callgraph[*node] == *TID).unwrap_or_else(|| panic!(..))` yields the first node labelled TID and diverges when there is none; derived == on '
                      'Tid read as specification equality',
                      "the type alias CallGraph<'a> = DiGraph<Tid, &'a Term<Jmp>> is restated in the unit (the extractor does not pull type aliases); Jmp is opaque",
+                     '64-bit target (usize = u64)']},
+    "C05": {'units': ['mem_region'],
+     'level_text': 'MemRegion<T>::{new, get_address_bytesize, clear_interval, insert_at_byte_index, add, get, get_unsized, remove, merge_write_top, mark_interval_values_as_top, '
+                   'merge_values_intersecting_range_with_top, add_offset_to_all_indices, merge_inner, merge, is_top, top, entry_map}, Inner::into and the helpers merge_or_merge_with_top / '
+                   'compute_range_end of abstract_domain/mem_region.rs are extracted verbatim from /repo on each run and verified by Verus for every value domain T satisfying the listed hypotheses, '
+                   'every region and every offset (no bound on the number of cells): every mutator keeps the invariant "no stored cell is the unknown value or empty, no two stored cells overlap"; each '
+                   'contract states the WHOLE resulting cell map: clear_interval/remove = the cells not meeting [p,p+s); insert/add = that plus {p -> v} unless v is the unknown value; get = the cell '
+                   'with exactly that offset and size, else new_top(size); merge_write_top / mark_interval_values_as_top = cells meeting the range replaced by merge(cell, top) or dropped; '
+                   'add_offset_to_all_indices = the same cells at shifted offsets; merge/merge_inner = exactly the cells both inputs hold at the same offset with the same size (merged, non-top) or that '
+                   'one input holds and that meet no cell of the other (merged with top, non-top). Three verified client functions compose these into the read-after-write clause (write;read, '
+                   'write;write;read, write;remove;read).',
+     'level_note': "Trusted: vstd's specifications of std BTreeMap (new/insert/get/remove/contains_key/is_empty/iter with ascending ghost sequence), three R9 shim contracts for BTreeMap::range "
+                   '(shim/mem_region.rs), rule R8 (Arc is transparent), the restated traits AbstractDomain/SizedDomain/HasTop with spec functions, the restated derive(PartialEq, Clone) of MemRegion (2 '
+                   'external_body), apint/ByteSize shims. Hypotheses on T are assumed, not checked against BitvectorDomain/IntervalDomain/DataDomain. Not covered: mark_all_values_as_top, '
+                   "clear_top_values, values_mut, iter, values, to_json_compact (values_mut()/retain(closure)/iterator-returning functions). Offsets are read as the two's-complement value of a position "
+                   'of at most 64 bits.',
+     'design_ref': 'DESIGN.md section 4 (C05)',
+     'default_twins': ['c05.ops'],
+     'sweep_twins': ['c05.ops'],
+     'kani': [],
+     'not_covered': ['MemRegion::mark_all_values_as_top (BTreeMap::values_mut() iterator of &mut T, then clear_top_values)',
+                     'MemRegion::clear_top_values (BTreeMap::retain with a closure)',
+                     'MemRegion::values_mut / iter / values (return std iterator types; values_mut lets the caller break the invariant until clear_top_values is called)',
+                     'ToJsonCompact for MemRegion::to_json_compact (iterator chain into serde_json)',
+                     'AbstractDomain::merge_with (trait default method, not used by mem_region.rs)'],
+     'assumptions': ['HYPOTHESIS on T (mr_domain_ok): bytesize() <= 2^25 for every value (so `u64::from(bytesize) as i64` is exact)',
+                     'HYPOTHESIS on T: merge of two values of equal bytesize has that bytesize',
+                     'HYPOTHESIS on T: v.top() is a top value of the bytesize of v; T::new_top(s) is a top value of bytesize s',
+                     'HYPOTHESIS on T: clone() returns its argument',
+                     'HYPOTHESIS on T, MemRegion::merge only (mr_eq_is_spec_eq, mr_merge_idem): == decides specification equality; merge(v, v) == v',
+                     'HYPOTHESIS on T (restated traits): bytesize / is_top / merge / top / new_top are deterministic functions of their arguments (ensures r == *_spec(..))',
+                     'machine arithmetic (i64), stated as preconditions: position + size <= i64::MAX in clear_interval / insert_at_byte_index / add / remove / merge_write_top; end + elem_size <= '
+                     'i64::MAX and elem_size < 2^63 in mark_interval_values_as_top; index + offset within i64 (and the shifted cell ends <= i64::MAX) for every stored cell in add_offset_to_all_indices; '
+                     '0 < size < 2^63 in merge_write_top. `prev_pos + prev_size`, `index + size`, `index + 1` never overflow because every stored cell ends at or below i64::MAX (mr_in_range: established '
+                     'by new(), kept by every operation)',
+                     'BTreeMap::range panics when start > end: start <= end is a precondition of merge_values_intersecting_range_with_top (start <= end + elem_size for mark_interval_values_as_top); size '
+                     '> 0 in clear_interval',
+                     'positions are well-formed bitvectors of at most 64 bits (otherwise try_to_i64().unwrap() may panic)',
+                     'rule R5: a failing assert!/assert_eq! diverges (width asserts of add/get/get_unsized/remove, size > 0 asserts, address_bytesize assert of merge_inner)',
+                     'rule R8: Arc<Inner<T>> is treated as Inner<T>; Arc::make_mut(&mut x) as &mut x (copy-on-write sharing is unobservable to a value-level contract)',
+                     'R9: contracts of BTreeMap::range(..hi).last(), range(lo..hi) front to back, range(lo..).next() in shim/mem_region.rs (std documentation); vstd BTreeMap specifications',
+                     'derive(PartialEq, Eq, Clone) of MemRegion restated as external_body glue in contracts/mem_region.vc',
                      '64-bit target (usize = u64)']},
 }
 
